@@ -1,8 +1,294 @@
-(* C14 -- multiplexing and bit-manipulation helpers select exactly the documented bits. *)
-From Coq Require Import ZArith List String.
-From PyRTL Require Import Front.SliceC14 Front.Mux Front.Struct Front.C14Harness.
+(* C14 -- multiplexing and bit-manipulation helpers select exactly the documented bits.
+   Only statements + `exact`.  Models (definitions only, evaluated by the harness and compared with
+   the real helpers on every run): Front/{SliceC14,Mux,BarrelC14,Bitfield,Pattern,Struct}.v;
+   proofs: Front/{SliceC14,Mux,BarrelC14,Bitfield,Pattern,Struct}Proofs.v.
+   A wire value is a bit list, LSB first; bitwidth = length; `None` = the helper raises.
+   All statements are for ALL widths, shapes and values. *)
+From Coq Require Import ZArith List Bool Ascii String.
+From PyRTL Require Import Base.PyZ Front.SliceC14 Front.Mux Front.BarrelC14 Front.Bitfield Front.Pattern
+     Front.Struct Front.C14Harness Front.SliceC14Proofs Front.MuxProofs Front.BitfieldProofs
+     Front.BarrelC14Proofs Front.PatternProofs Front.StructProofs.
 Import ListNotations. Open Scope Z_scope.
 
+(* ================= mux / select ================= *)
+(* the input addressed by the index; the default only for index values beyond the list;
+   result zero-extended to the longest (padded) input *)
+Theorem C14_mux_selects : forall idx ins dflt r,
+  mux idx ins dflt = Some r ->
+  let k := Z.to_nat (to_Z idx) in
+  let chosen := if Nat.ltb k (length ins) then nth k ins []
+                else match dflt with Some d => d | None => [] end in
+  (1 <= length idx)%nat /\
+  length (mux_pad (length idx) ins dflt) = (2 ^ length idx)%nat /\
+  r = zext (maxlen (mux_pad (length idx) ins dflt)) chosen /\
+  to_Z r = to_Z chosen /\
+  (k < length ins \/ dflt <> None)%nat.
+Proof. exact mux_selects. Qed.
+Print Assumptions C14_mux_selects.
+
+(* it raises exactly when the (padded) input count is not 2 ** len(index) *)
+Theorem C14_mux_arity : forall idx ins dflt,
+  mux idx ins dflt <> None <->
+  (1 <= length idx)%nat /\ length (mux_pad (length idx) ins dflt) = (2 ^ length idx)%nat.
+Proof. exact mux_arity. Qed.
+Print Assumptions C14_mux_arity.
+
+Theorem C14_select : forall s t f,
+  to_Z (select s t f) = (if s then to_Z t else to_Z f) /\
+  length (select s t f) = Nat.max (length f) (length t).
+Proof. exact select_spec. Qed.
+Print Assumptions C14_select.
+
+(* ================= sparse_mux / enum_mux / MultiSelector ================= *)
+(* tags_ok: wires the code judges equivalent (`is`, or equal Consts) carry the same bits *)
+Theorem C14_sparse_mux_listed : forall sel vals dflt r k v,
+  NoDup (map fst vals) ->
+  tags_ok (sparse_fill (length sel) vals dflt) ->
+  sparse_mux sel vals dflt = Some r ->
+  In (k, v) vals -> to_Z sel = k -> to_Z (wbits r) = to_Z (wbits v).
+Proof. exact sparse_mux_listed. Qed.
+Print Assumptions C14_sparse_mux_listed.
+
+Theorem C14_sparse_mux_default : forall sel vals d r,
+  NoDup (map fst vals) ->
+  tags_ok (sparse_fill (length sel) vals (Some d)) ->
+  sparse_mux sel vals (Some d) = Some r ->
+  lookup (to_Z sel) vals = None -> to_Z (wbits r) = to_Z (wbits d).
+Proof. exact sparse_mux_default. Qed.
+Print Assumptions C14_sparse_mux_default.
+
+Theorem C14_enum_mux_spec : forall cntrl members table dflt strict r,
+  enum_mux cntrl members table dflt strict = Some r ->
+  sparse_mux cntrl (enum_vals table) (enum_default table dflt) = Some r /\
+  (enum_default table dflt = dflt \/ dflt = None) /\
+  (strict = true -> enum_default table dflt = None ->
+   forall m, In m members -> lookup m (enum_vals table) <> None).
+Proof. exact enum_mux_spec. Qed.
+Print Assumptions C14_enum_mux_spec.
+
+Theorem C14_multiselector_option : forall sel dws opts rs j k data,
+  multiselector sel dws opts = Some rs ->
+  (j < length dws)%nat ->
+  tags_ok (sparse_fill (length sel) (ms_vals opts (nth j dws 0%nat) j) (ms_dflt opts (nth j dws 0%nat) j)) ->
+  In (Some k, data) opts -> to_Z sel = k ->
+  to_Z (nth j rs []) = to_Z (wbits (nth j data (mkW None []))) mod 2 ^ Z.of_nat (nth j dws 0%nat).
+Proof. exact multiselector_option. Qed.
+Print Assumptions C14_multiselector_option.
+
+Theorem C14_multiselector_default : forall sel dws opts rs j d,
+  multiselector sel dws opts = Some rs ->
+  (j < length dws)%nat ->
+  ms_dflt opts (nth j dws 0%nat) j = Some d ->
+  tags_ok (sparse_fill (length sel) (ms_vals opts (nth j dws 0%nat) j) (Some d)) ->
+  lookup (to_Z sel) (ms_vals opts (nth j dws 0%nat) j) = None ->
+  to_Z (nth j rs []) = to_Z (wbits d) mod 2 ^ Z.of_nat (nth j dws 0%nat).
+Proof. exact multiselector_default. Qed.
+Print Assumptions C14_multiselector_default.
+
+(* ================= prioritized_mux ================= *)
+Theorem C14_prioritized_mux_first_high : forall sels vals r,
+  prioritized_mux sels vals = Some r ->
+  length sels = length vals /\ vals <> [] /\
+  to_Z r = to_Z (nth (first_high sels) vals []) /\ length r = maxlen vals.
+Proof. exact prioritized_mux_first_high. Qed.
+Print Assumptions C14_prioritized_mux_first_high.
+
+(* first_high = index of the first high select, the last index if none is high *)
+Theorem C14_first_high_meaning : forall sels, sels <> [] ->
+  let k := first_high sels in
+  (forall j, (j < k)%nat -> nth j sels false = false) /\
+  (nth k sels false = true \/
+   (k = length sels - 1)%nat /\ forall j, (j < length sels)%nat -> nth j sels false = false).
+Proof. exact first_high_spec. Qed.
+Print Assumptions C14_first_high_meaning.
+
+(* ================= demux ================= *)
+Theorem C14_demux_one_hot : forall sel, (1 <= length sel)%nat ->
+  length (demux sel) = (2 ^ length sel)%nat /\
+  forall j, (j < 2 ^ length sel)%nat -> nth j (demux sel) false = (to_Z sel =? Z.of_nat j).
+Proof. exact demux_one_hot. Qed.
+Print Assumptions C14_demux_one_hot.
+
+(* ================= barrel_shifter ================= *)
+(* s = the FULL value of shift_dist (also when it is wider than log2(width)); bit j of the result is
+   bit j-s (dir=1, up) resp. j+s (dir=0, down) of the input when that bit exists, else bit_in *)
+Theorem C14_barrel_full_shift : forall x b dir sd,
+  (1 <= length x)%nat ->
+  let r := barrel_shifter x [b] dir sd in
+  length r = length x /\
+  forall j, (j < length x)%nat -> nth j r false = shift_bit x b dir (Z.to_nat (to_Z sd)) j.
+Proof. exact barrel_full_shift. Qed.
+Print Assumptions C14_barrel_full_shift.
+
+Theorem C14_barrel_full_shift_eq : forall x b dir sd,
+  (1 <= length x)%nat ->
+  barrel_shifter x [b] dir sd = shift_spec x b dir (Z.to_nat (to_Z sd)).
+Proof. exact barrel_full_shift_eq. Qed.
+Print Assumptions C14_barrel_full_shift_eq.
+
+(* ================= bitfield_update(_set) ================= *)
+(* idx = Python's range(len(w))[s:e]; bit j of the new value lands on idx[j];
+   every bit of w outside idx is unchanged; the bitwidth is unchanged *)
+Theorem C14_bitfield_update_spec : forall w s e nv tr r,
+  bitfield_update w s e nv tr = Some r ->
+  let idx := pyslice (seq 0 (length w)) s e in
+  idx <> [] /\ length r = length w /\
+  (length nv <= length idx \/ tr = true)%nat /\
+  (forall j, (j < length idx)%nat -> nth (nth j idx 0%nat) r false = nth j nv false) /\
+  (forall i, ~ In i idx -> nth i r false = nth i w false).
+Proof. exact bitfield_update_spec. Qed.
+Print Assumptions C14_bitfield_update_spec.
+
+Theorem C14_bitfield_update_int_spec : forall w s e v r,
+  bitfield_update_int w s e v = Some r ->
+  let idx := pyslice (seq 0 (length w)) s e in
+  idx <> [] /\ length r = length w /\
+  0 <= v < 2 ^ Z.of_nat (length idx) /\
+  (forall j, (j < length idx)%nat -> nth (nth j idx 0%nat) r false = Z.testbit v (Z.of_nat j)) /\
+  (forall i, ~ In i idx -> nth i r false = nth i w false).
+Proof. exact bitfield_update_int_spec. Qed.
+Print Assumptions C14_bitfield_update_int_spec.
+
+(* the addressed indices form the contiguous run [a, b) given by the slice bounds *)
+Theorem C14_slice_indices : forall n s e,
+  pyslice (seq 0 n) s e =
+  seq (fst (slice_bounds n s e)) (snd (slice_bounds n s e) - fst (slice_bounds n s e)).
+Proof. exact pyslice_seq. Qed.
+Print Assumptions C14_slice_indices.
+
+(* non-empty pairwise disjoint ranges (else it raises); each receives its value;
+   bits outside all ranges unchanged *)
+Theorem C14_bitfield_update_set_spec : forall w ups tr r,
+  bitfield_update_set w ups tr = Some r ->
+  length r = length w /\
+  (forall u, In u ups ->
+     let idx := idx_of (length w) u in
+     idx <> [] /\ (length (snd u) <= length idx \/ tr = true)%nat /\
+     (forall j, (j < length idx)%nat -> nth (nth j idx 0%nat) r false = nth j (snd u) false)) /\
+  (forall i, (forall u, In u ups -> ~ In i (idx_of (length w) u)) -> nth i r false = nth i w false) /\
+  ForallOrdPairs (fun u1 u2 => forall i, In i (idx_of (length w) u1) -> ~ In i (idx_of (length w) u2)) ups.
+Proof. exact bitfield_update_set_spec. Qed.
+Print Assumptions C14_bitfield_update_set_spec.
+
+(* ================= match_bitpattern ================= *)
+(* ns = the pattern with '_' and whitespace removed (match_bitpattern w pat = match_bits w (strip pat));
+   matched = 1 <-> every position holding 0/1 agrees with the wire (positions counted from the lsb) *)
+Theorem C14_match_bitpattern_matched : forall w ns m fs,
+  match_bits w ns = Some (m, fs) ->
+  length w = length ns /\
+  (m = true <->
+   forall i, (i < length w)%nat ->
+     (nth i (rev ns) "?"%char = "1"%char -> nth i w false = true) /\
+     (nth i (rev ns) "?"%char = "0"%char -> nth i w false = false)).
+Proof. exact match_bits_matched. Qed.
+Print Assumptions C14_match_bitpattern_matched.
+
+(* fields: one per letter (not 0/1/?), letters in first-occurrence order (dedup), each field read
+   msb-first = the wire bits standing under that letter, left to right *)
+Theorem C14_match_bitpattern_fields : forall w ns m fs,
+  match_bits w ns = Some (m, fs) ->
+  map fst fs = dedup (filter is_field ns) /\
+  NoDup (map fst fs) /\
+  (forall c, In c (map fst fs) <-> In c ns /\ is_field c = true) /\
+  (forall c bs, In (c, bs) fs ->
+     rev bs = map snd (filter (fun p => Ascii.eqb (fst p) c) (combine ns (rev w)))).
+Proof. exact match_bits_fields. Qed.
+Print Assumptions C14_match_bitpattern_fields.
+
+Theorem C14_match_bitpattern_strip : forall w pat,
+  match_bitpattern w pat = match_bits w (strip (list_ascii_of_string pat)).
+Proof. exact match_bitpattern_unfold. Qed.
+Print Assumptions C14_match_bitpattern_strip.
+
+(* ================= chop / partition_wire ================= *)
+Theorem C14_chop_spec : forall w ws ps, chop w ws = Some ps ->
+  sum_nat ws = length w /\ length ps = length ws /\
+  (forall i, (i < length ws)%nat ->
+     nth i ps [] = firstn (nth i ws 0%nat) (skipn (sum_nat (skipn (S i) ws)) w) /\
+     length (nth i ps []) = nth i ws 0%nat /\ (1 <= nth i ws 0)%nat) /\
+  concat_msb ps = w.
+Proof. exact chop_spec. Qed.
+Print Assumptions C14_chop_spec.
+
+Theorem C14_partition_wire_spec : forall w size ps, partition_wire w size = Some ps ->
+  (1 <= size)%nat /\ Nat.modulo (length w) size = 0%nat /\ length ps = (length w / size)%nat /\
+  (forall k, (k < length w / size)%nat ->
+     nth k ps [] = firstn size (skipn (k * size) w) /\ length (nth k ps []) = size) /\
+  concat_lsb ps = w.
+Proof. exact partition_wire_spec. Qed.
+Print Assumptions C14_partition_wire_spec.
+
+(* ================= wire_struct / wire_matrix ================= *)
+(* slicing mode: the instance is the value; it is well sliced at every nesting level (each node has
+   sbw bits and is the msb-first concatenation of its components); component i is exactly the range
+   [sum of widths of later components, + own width); components are themselves sliced instances *)
+Theorem C14_struct_slice_spec : forall s v, length v = sbw s ->
+  croot (slice_comp s v) = v /\
+  well_sliced s (slice_comp s v) /\
+  (forall i, (i < length (children s))%nat ->
+     croot (nth i (ckids (slice_comp s v)) (CNode [] [])) =
+     firstn (sbw (nth i (children s) (SLeaf 0))) (skipn (sumbw (skipn (S i) (children s))) v)) /\
+  Forall2 (fun c k => k = slice_comp c (croot k)) (children s) (ckids (slice_comp s v)).
+Proof. exact struct_slice_spec. Qed.
+Print Assumptions C14_struct_slice_spec.
+
+(* concatenation mode *)
+Theorem C14_struct_concat_spec : forall s vals t,
+  concat_comp s vals = Some t ->
+  length vals = length (children s) /\
+  (Forall2 (fun c v => length v = sbw c) (children s) vals -> children s <> [] ->
+   croot t = concat_msb vals /\ map croot (ckids t) = vals /\ well_sliced s t).
+Proof. exact struct_concat_spec. Qed.
+Print Assumptions C14_struct_concat_spec.
+
+(* ================= non-vacuity: every hypothesis is satisfiable on a non-trivial instance ================= *)
 Example C14_example_mux :
-  t_mux [2;2]%nat (SW 0) [SW 1; SC 3 5; SC 1 1] (Some (SC 1 0)) <> None.
-Proof. vm_compute. discriminate. Qed.
+  option_map to_Z (mux [false; true] [[true]; [true; false; true]; [true; true]] (Some [false; true])) = Some 3 /\
+  option_map to_Z (mux [true; true] [[true]; [true; false; true]; [true; true]] (Some [false; true])) = Some 2 /\
+  mux [true; true] [[true]; [true; false; true]; [true; true]] None = None.
+Proof. vm_compute. repeat split; reflexivity. Qed.
+
+Example C14_example_sparse :
+  let vals := [(0, mkW (Some 1) [true; false]); (5, mkW (Some 2) [true; true]); (6, mkW (Some 1) [true; false])] in
+  NoDup (map fst vals) /\
+  option_map (fun r => to_Z (wbits r)) (sparse_mux [true; false; true] vals (Some (mkW (Some 3) [false]))) = Some 3 /\
+  option_map (fun r => to_Z (wbits r)) (sparse_mux [true; true; true] vals (Some (mkW (Some 3) [false]))) = Some 0.
+Proof. vm_compute. repeat split; try reflexivity. repeat constructor; cbn; intuition discriminate. Qed.
+
+Example C14_example_enum_multi :
+  option_map (fun r => to_Z (wbits r))
+    (enum_mux [false; true] [1; 2] [(Some 1, mkW (Some 0) [true; true]); (None, mkW (Some 1) [false; true])] None true)
+    = Some 2 /\
+  option_map (map to_Z)
+    (multiselector [true; false] [2; 1]%nat
+       [(Some 1, [mkW (Some 0) [true; true; true]; mkW (Some 1) [true]]); (None, [mkW (Some 2) [false]; mkW (Some 3) [false]])])
+    = Some [3; 1].
+Proof. vm_compute. split; reflexivity. Qed.
+
+Example C14_example_pmux_demux :
+  option_map to_Z (prioritized_mux [false; true; true] [[true]; [false; true]; [true; true]]) = Some 2 /\
+  demux [false; true] = [false; false; true; false].
+Proof. vm_compute. split; reflexivity. Qed.
+
+Example C14_example_barrel :
+  to_Z (barrel_shifter (of_Z 5 19) [true] true (of_Z 4 2)) = 15 /\
+  to_Z (barrel_shifter (of_Z 5 19) [false] false (of_Z 4 9)) = 0.
+Proof. vm_compute. split; reflexivity. Qed.
+
+Example C14_example_bitfield :
+  option_map to_Z (bitfield_update (of_Z 6 0) (Some (-4)) (Some 5) (of_Z 3 7) false) = Some 28 /\
+  option_map to_Z (bitfield_update_set (of_Z 6 63) [((None, Some 1), [false]); ((Some 4, None), [true; false])] false)
+    = Some 30 /\
+  bitfield_update_set (of_Z 6 63) [((None, Some 2), [false]); ((Some 1, None), [true; false])] false = None.
+Proof. vm_compute. repeat split; reflexivity. Qed.
+
+Example C14_example_pattern :
+  match_bitpattern (of_Z 6 37) "1a_0? ba"%string
+  = Some (true, [("a"%char, [true; false]); ("b"%char, [false])]).
+Proof. vm_compute. reflexivity. Qed.
+
+Example C14_example_chop_struct :
+  option_map (map to_Z) (chop (of_Z 6 45) [1; 3; 2]%nat) = Some [1; 3; 1] /\
+  option_map (map to_Z) (partition_wire (of_Z 6 45) 2) = Some [1; 3; 2] /\
+  map to_Z (cflat (slice_comp (SStruct [SLeaf 1; SMatrix (SLeaf 2) 2; SLeaf 1]) (of_Z 6 45))) = [45; 1; 6; 1; 2; 1].
+Proof. vm_compute. repeat split; reflexivity. Qed.
